@@ -9,6 +9,9 @@ HARNESSES = [
     {'name': 'h_memo', 'src': 'C17/h_cache.cpp', 'entry': 'h_cache', 'repo_srcs': srcsets.SERDE, 'defines': ['MODE_MEMO'], 'covers': [1, 2, 3, 4, 5, 6, 7, 8, 9], 'jobs': 4,
      'obligations': ['every VbkBlock setter (nonce, height, version, previous block, both keystones, merkle root, timestamp, difficulty) and every BtcBlock setter empties the memoised hash, so a header change always changes what getHash() is computed from'],
      'rungs': {'quick': [{'bound': 'all field values (symbolic), arbitrary pre-set memo', 'timeout': 120}], 'thorough': [{'bound': 'as quick', 'timeout': 300}]}},
+    {'name': 'h_reuse', 'src': 'C17/h_cache.cpp', 'entry': 'h_cache', 'repo_srcs': srcsets.SERDE, 'defines': ['MODE_REUSE'], 'covers': [1, 2, 3, 4], 'jobs': 4,
+     'obligations': ['decoding a VbkBlock / BtcBlock (raw and VBK encoding, with and without a precalculated hash) INTO an object that already carries a memoised hash leaves the precalculated hash, or an empty memo, never the hash of the previous header'],
+     'rungs': {'quick': [{'bound': 'symbolic header fields, arbitrary stale memo, arbitrary non-zero precalculated hash', 'timeout': 150}], 'thorough': [{'bound': 'as quick', 'timeout': 300}]}},
 ]
 EXPLANATION = 'SEQUENTIAL obligations only: transparency of the small LFRU cache container used by progPowHash and invalidation of the header hash memo.'
 ASSUMPTIONS = ['concurrent requests and the ethash/progpow computations themselves (DAG generation, KISS99 mixing: whole-input hashing loops) are NOT covered by this technique family',
